@@ -127,7 +127,7 @@ def gen_tasky(rng, depth):
     if r < 0.66:
         return ['funtasklet', gen_task(rng, depth - 1), rng.choice(['f', 'm1'])]
     if r < 0.74:
-        return ['lambda', gen_task(rng, depth - 1), rng.choice(['la', 'lb', 'lreal', 'limag', 'l1', 'l2'])]
+        return ['lambda', gen_task(rng, depth - 1), rng.choice(['la', 'lb', 'lreal', 'limag', 'l1', 'l2', 'ld0', 'ld1', 'lkw0', 'lkw1', 'lc0', 'lc2'])]
     if r < 0.82:
         n = rng.randint(0, 7)
         ms = ['mapseq', 'm1', [str(i) for i in range(n)], rng.choice([2, 3, 4])]
